@@ -99,6 +99,11 @@ def forged_selfref():
                             img += env_inline * outer
                             out.append(("selfref outer=%d def=%d inner=%d %s %s%s" % (outer, nd, inner, inner_env, code,
                                                                                      "" if flagged == bool(nd) else " flagged"), img))
+    # abstract values nested inside abstract values (a channel whose only item is a channel ...): the reader must bound
+    # the depth as it does for containers
+    for n in (600, 1500, 60000):
+        out.append(("nested-channels depth=%d" % n,
+                    b"\xD9\xCF\x0Ccore/channel\0\0\x01\x01" + b"\xD9\xDA\0\0\0\x01\x01" * n + b"\x01"))
     return out
 
 
